@@ -32,6 +32,9 @@ type VerifJob struct {
 	MemGB        float64
 	VMemGB       float64
 	Local        bool
+	// mrp's own metadata object for the job (what the local job manager
+	// writes _errors through when a process dies silently).
+	Metadata *Metadata
 }
 
 // VerifJobManager records job submissions through OnExec.
@@ -56,6 +59,7 @@ func (self *VerifJobManager) execJob(shellCmd string, argv []string,
 		JournalFile:  md.journalFile(),
 		Preflight:    preflight,
 		Local:        self.local,
+		Metadata:     md,
 	}
 	if res != nil {
 		job.Threads, job.MemGB, job.VMemGB = res.Threads, res.MemGB, res.VMemGB
